@@ -16,6 +16,8 @@ Line protocol (tokens separated by single spaces)
   watch <ev> ... | <ev> ... | E    ev    = P~key~<node> | B~key~variant | D~key | X~key ; E = failed response
   state s=2
   dir types=gate,chat names=g0,c0
+  start <node> ... | <ev> ...      the real StartMember on an in-memory etcd: listing, then one response right
+                                   after the watch opened, the first directory store being slow (obs stores=k final=<members>)
   stress n=3000                    reader/updater smoke run (obs ok | mixed:<query> | panic)
   mk  types=.. names=.. M~<member> ...   member = id;host;port;state;svc,svc
 -/
@@ -134,6 +136,8 @@ def dump (d : Dir) (types names : List String) : String :=
 
 structure St where
   p : Option PState := none
+  /-- the node as `reset` described it (what `ICluster` tells `StartMember`) -/
+  self0 : Option Node := none
   view : List Member := []
   ordered : Bool := true
 
@@ -145,9 +149,26 @@ def step (s : St) (line : String) : St × String :=
   match ws with
   | "reset" :: _ =>
     match selfOfReset ws with
-    | some self => ({ p := some { self := self }, view := [], ordered := true }, "self=" ++ showMember self.member)
+    | some self => ({ p := some { self := self }, self0 := some self, view := [], ordered := true }, "self=" ++ showMember self.member)
     | none => ({}, "bad-op")
   | "stress" :: _ => (s, "ok")   -- reader/updater smoke run: every answer came from a whole view
+  | "start" :: rest =>
+    -- the whole `StartMember` sequence on a fresh provider: listing ∪ self published, then the
+    -- first watch response; the observation is what the directory holds in the end
+    match s.self0 with
+    | none => (s, "noinit")
+    | some self =>
+      match splitBatches rest with
+      | [l, b] =>
+        match l.mapM parseNode, parseBatch b with
+        | some ns, (some evs, false) =>
+          let r1 := pstep { self := self } (.listing ns)
+          let r2 := pstep r1.1 (.response evs)
+          let final := match r2.2 with | some pub => pub | none => (r1.2.getD [])
+          let n := if r2.2.isSome then 2 else 1
+          (s, s!"stores={n} final=" ++ ((showPub final).drop 4).toString)
+        | _, _ => (s, "bad-op")
+      | _ => (s, "bad-op")
   | "mk" :: rest =>
     let ms := parseMk rest
     let s' := { s with view := ms, ordered := true }
@@ -205,6 +226,7 @@ def seqApply (selfId : String) (m : AL Node) : Ev → AL Node
 
 structure Mon where
   self : Option Node := none
+  self0 : Option Node := none
   m : AL Node := []
   listed : Bool := false
   /-- every registration seen so far is stored under its own node id -/
@@ -264,7 +286,26 @@ def specStep (s : Mon) (line : String) : Mon × String :=
       (if obs == "ok" then (s, "ok") else (s, s!"VIOLATION C08/read-saw-partial-view {obs} | {op}")) else
     if obs.startsWith "panic" || obs.startsWith "<no-observation" then (s, "VIOLATION C08/crash " ++ op) else
     match ws with
-    | "reset" :: _ => ({ self := selfOfReset ws }, "ok")
+    | "reset" :: _ => ({ self := selfOfReset ws, self0 := selfOfReset ws }, "ok")
+    | "start" :: rest =>
+      -- StartMember as a whole: whatever the interleaving of the initial publication with the
+      -- watcher, the directory must end up with listing ∪ self folded with the delivered events
+      match s.self0, splitBatches rest with
+      | some self, [l, b] =>
+        match l.mapM parseNode with
+        | none => (s, "ok")
+        | some ns =>
+          let toks := b.map parseEv
+          let evs := toks.filterMap (fun t => match t with | .ev e _ => some e | _ => none)
+          let m0 := AL.set (ns.foldl (fun (m : AL Node) n => AL.set m n.id n) []) self.id self
+          let m := evs.foldl (seqApply self.id) m0
+          let want := ((showPub (publish m)).drop 4).toString
+          if !toks.all evWf then (s, "ok")
+          else if (kv (words obs) "final") == some want then (s, "ok")
+          else if (kv (words obs) "final") == some ((showPub (publish m0)).drop 4).toString then
+            (s, s!"VIOLATION C08/stale-initial-view the directory ends with {obs} (the listing alone), the listing and the delivered events imply final={want} | {op}")
+          else (s, s!"VIOLATION C08/fold-differs-from-implied StartMember: the directory ends with {obs}, the listing and the delivered events imply final={want} | {op}")
+      | _, _ => (s, "ok")
     | "mk" :: rest =>
       let ms := parseMk rest
       let s' := { s with view := ms, ordered := true }
